@@ -80,7 +80,7 @@ func caseVariants(s string, locked []bool, maxAll int, f func(v string) bool) (i
 }
 
 func evalC11Case(w *fw.W, s, _ string) {
-	low := strings.ToLower(s)
+	low := asciiLower(s)
 	if s != low {
 		return // the class of s is explored from its all-lower-case representative
 	}
@@ -177,7 +177,7 @@ func init() {
 			{Name: "case-trie-fragments", Space: "fragment alphabet (H2 + event/URL/scheme/doctype names)^<=3 (quick) / <=4 (thorough) x case assignments", Share: 4,
 				Run: func(w *fw.W) { w.Trie(c11Frag, 1, w.Pick(3, 4)) }, Eval: evalC11Case},
 			{Name: "case-vectors", Space: "every C04 grammar vector x case assignments", Share: 2,
-				Run: func(w *fw.W) { w.Each(len(vectors), func(i int) { w.Item(strings.ToLower(vectors[i]), "") }) }, Eval: evalC11Case},
+				Run: func(w *fw.W) { w.Each(len(vectors), func(i int) { w.Item(asciiLower(vectors[i]), "") }) }, Eval: evalC11Case},
 			{Name: "nul-trie-H1", Space: "H1^<=5 x 5 contexts x interior positions of name tokens", Share: 2,
 				Run: func(w *fw.W) { w.Trie(alpha.H1, 1, 5) }, Eval: evalC11Nul},
 			{Name: "nul-trie-fragments", Space: "fragment alphabet^<=3 (quick) / <=4 (thorough) x 5 contexts x interior positions", Share: 3,
